@@ -295,20 +295,28 @@ func (s *Sim) checkQuotaPreemption(queue string, victims []*MAlloc, now int64) {
 	if s.conf.QuotaPreemption == nil || !*s.conf.QuotaPreemption {
 		s.violate("C08", "quota-feature-disabled", "", "quota preemption ran for %s although the partition does not enable it", queue)
 	}
-	if !q.HasMax {
-		s.violate("C08", "quota-without-max", "", "quota preemption ran for %s which has no maximum", queue)
-		return
-	}
-	// never more than the excess over the (lowered) maximum: removing any one victim must still leave ... the sum
-	// minus the smallest victim must not already have cleared the excess on every type
+	// the maximum that is exceeded is the queue's own or that of an ancestor (the excess of a parent is distributed
+	// over its leaves): per type, the largest excess on the path
 	excess := Res{}
-	for t, m := range q.Max {
-		if d := q.Alloc[t] - q.Preempting[t] - m; d > 0 {
-			excess[t] = d
+	anyMax := false
+	for _, qp := range ancestors(queue) {
+		aq := pre.Queues[qp]
+		if aq == nil || !aq.HasMax {
+			continue
+		}
+		anyMax = true
+		for t, m := range aq.Max {
+			if d := aq.Alloc[t] - aq.Preempting[t] - m; d > excess[t] {
+				excess[t] = d
+			}
 		}
 	}
+	if !anyMax {
+		s.violate("C08", "quota-without-max", "", "quota preemption ran for %s: neither it nor an ancestor has a maximum", queue)
+		return
+	}
 	if len(excess) == 0 {
-		s.violate("C08", "quota-no-excess", "", "quota preemption took victims from %s whose usage %s (preempting %s) does not exceed its maximum %s", queue, q.Alloc, q.Preempting, q.Max)
+		s.violate("C08", "quota-no-excess", "", "quota preemption took victims from %s: neither its usage %s (preempting %s, maximum %s) nor that of an ancestor exceeds a maximum", queue, q.Alloc, q.Preempting, q.Max)
 		return
 	}
 	total := Res{}
